@@ -38,6 +38,9 @@ def run(ctx):
     from . import c05
     ctx.step(c05.unlink_first, ctx, "C13.unlink", nothrow_after_unlink=True)
     ctx.step(c05.register, ctx, "C13.register")
+    # what erase logged is actually reclaimed: the release path frees the older records from the cursor it scanned and
+    # re-links the own record past exactly what it freed (nothing is cut off unfreed)
+    ctx.step(c05.reclaim, ctx, "C13.reclaim")
     ctx.step(uaf, ctx, "C13.uaf", fns(ctx), floor=20)
 
 
